@@ -1027,14 +1027,123 @@ def step_of(fn, n, did):
     return None
 
 
+_NEG = {"<": ">=", ">": "<=", "<=": ">", ">=": "<", "==": "!=", "!=": "=="}
+_MIRROR = {"<": ">", ">": "<", "<=": ">=", ">=": "<=", "==": "==", "!=": "!="}
+JUMPS = ("BreakStmt", "ContinueStmt", "ReturnStmt", "GotoStmt", "CXXThrowExpr", "CoreturnStmt")
+
+
+def comparison(e, negate=False):
+    """(op, lhs, rhs) of a comparison, through ! and parentheses; with negate: of its negation"""
+    e = peel(e)
+    while e is not None and e["k"] == "UnaryOperator" and e.get("op") == "!" and match.binop(e, ("==", "!=")) is None:
+        e, negate = peel(kids(e)[0]), not negate
+    c = match.binop(e, tuple(_NEG)) if e is not None else None
+    if not c:
+        return None
+    return (_NEG[c[0]] if negate else c[0], c[1], c[2])
+
+
+def exit_test_first(body):
+    """(condition, break statement) when the loop body starts with `if (C) break;` (no else), else None"""
+    if body is None or body["k"] != "CompoundStmt" or not kids(body):
+        return None
+    s = kids(body)[0]
+    if s is None or s["k"] != "IfStmt" or s.get("init") or s.get("condvar"):
+        return None
+    ks = [k for k in kids(s)]
+    if len(ks) < 2 or (len(ks) > 2 and ks[2] is not None):
+        return None
+    th = ks[1]
+    while th is not None and th["k"] == "CompoundStmt" and len(kids(th)) == 1:
+        th = kids(th)[0]
+    if th is None or th["k"] != "BreakStmt":
+        return None
+    return ks[0], th
+
+
+def field_at_least_one(fn, fname):
+    """reason (str) why the member `fname` of *this cannot be shown to be >= 1 whenever a member function runs, or None when it is shown:
+    the member is unsigned, every constructor of this instance leaves it non-zero on every path (branch on a comparison with a constant,
+    store of a non-zero constant), and nothing else in the translation unit writes it"""
+    tu = fn.tu
+    recs = [r for r in tu.records if r.get("qname") == fn.record and (r.get("targs") or []) == (fn.rtargs or [])]
+    fld = [f for r in recs for f in r.get("fields", []) if f.get("name") == fname and "mid" in f]
+    if len(fld) != 1:
+        return "the member %s is not found in the class of %s" % (fname, fn.name)
+    mid, ty = fld[0]["mid"], (fld[0].get("ty") or "")
+    if not (ty.startswith("unsigned ") or ty in ("size_t", "std::size_t")) or "*" in ty or "&" in ty:
+        return "%s is not an unsigned integer (%s)" % (fname, ty)
+
+    def is_f(x):
+        x = peel(x)
+        return x is not None and x["k"] == "MemberExpr" and x.get("mid") == mid
+
+    ctors = []
+    for f2 in tu.functions:
+        if f2.body is None:
+            continue
+        own_ctor = f2.kind == "ctor" and f2.record == fn.record and (f2.rtargs or []) == (fn.rtargs or [])
+        if own_ctor:
+            ctors.append(f2)
+            continue
+        for x in f2.nodes():
+            if x["k"] == "MemberExpr" and x.get("mid") == mid and _is_write(f2, x):
+                return "%s is written in %s (%s)" % (fname, f2.name, f2.nloc(x))
+    if not ctors:
+        return "no constructor of %s is seen" % fn.record.split("::")[-1]
+
+    def at_zero(e):
+        """truth value of the condition e when the member is 0; None if e is not a test of the member against a constant"""
+        e = peel(e)
+        if e is None:
+            return None
+        if e["k"] == "UnaryOperator" and e.get("op") == "!" and match.binop(e, ("==", "!=")) is None:
+            v = at_zero(kids(e)[0])
+            return None if v is None else (not v)
+        if is_f(e):
+            return False
+        c = match.binop(e, ("==", "!=", "<", ">", "<=", ">="))
+        if c:
+            for a, b, flip in ((c[1], c[2], False), (c[2], c[1], True)):
+                k = const_int(peel(b)) if peel(b) is not None else None
+                if k is None:
+                    k = const_int(b)
+                if is_f(a) and k is not None:
+                    return _CMP[c[0]](k, 0) if flip else _CMP[c[0]](0, k)
+        return None
+
+    for c in ctors:
+        if not c.cfg:
+            return "the constructor has no CFG"
+        g = cfgm.CFG(c)
+        eff = {}
+        for x in c.nodes():
+            if x["k"] == "MemberExpr" and x.get("mid") == mid and _is_write(c, x):
+                e, par = x, c.parent(x)
+                while par is not None and par["k"] in WRAPPERS:
+                    e, par = par, c.parent(par)
+                if par is None or g.pos(par) is None:
+                    return "%s: a write of %s has no position in the constructor's CFG" % (c.nloc(x), fname)
+                k = None
+                if par["k"] == "BinaryOperator" and par.get("op") == "=" and kids(par)[0] is e:
+                    k = const_int(peel(kids(par)[1]))
+                    if k is None:
+                        k = const_int(kids(par)[1])
+                eff[par["id"]] = "gen" if k else "kill"
+        mf = mustfact.MustFact(c, g, lambda cond, truth: (lambda v: v is not None and v != truth)(at_zero(cond)), lambda n: eff.get(n["id"]))
+        if not mf.inn.get(g.exit):
+            return "%s: a path through the constructor is not seen to leave %s non-zero" % (c.loc, fname)
+    return None
+
+
 def trip_count(fn, g, lp, e):
     """value_key of the number of times the call e runs in loop lp, for counting loops whose every iteration runs e once:
-    for/while (i = c0; i < B | i != B | B > i | B != i; ++i) and the count-down mirror (i = B; i > c | i != c; --i).
-    Raises Undecidable with the reason when the loop is of another form."""
+    for/while (i = c0; i < B | i != B | B > i | B != i; ++i), the count-down mirror (i = B; i > c | i != c; --i), the same with the exit
+    test written as a leading `if (!cond) break;` of an endless loop, and do { .. } while (cond) / while (++i < B) when the count is
+    shown to be at least one.  Raises Undecidable with the reason when the loop is of another form."""
     loc = fn.nloc(lp)
-    if lp["k"] == "DoStmt":
-        raise Undecidable("%s: the jobs are enqueued by a do-while loop; its trip count is not derived" % loc)
     init, cond, inc, body = match.loop_parts(lp)
+    is_do = lp["k"] == "DoStmt"
     # e runs exactly once per iteration: no branching statement between the loop body and e, no jump statement in the body
     par = fn.parent(e)
     while par is not None and par is not lp:
@@ -1042,12 +1151,26 @@ def trip_count(fn, g, lp, e):
                 (par["k"] == "BinaryOperator" and par.get("op") in ("&&", "||")):
             raise Undecidable("%s: the job is enqueued conditionally inside the loop; the number of jobs is not derived" % fn.nloc(e))
         par = fn.parent(par)
-    if any(z["k"] in ("BreakStmt", "ContinueStmt", "ReturnStmt", "GotoStmt", "CXXThrowExpr") for z in ir.walk(body)):
+    c, exit_break = None, None
+    if not is_do and (cond is None or (const_int(peel(cond)) or const_int(cond))):
+        # an endless loop that is left by a test at the start of its body
+        et = exit_test_first(body)
+        if et is None:
+            raise Undecidable("%s: the enqueuing loop has no condition and does not start with `if (..) break;`" % loc)
+        c, exit_break = comparison(et[0], negate=True), et[1]
+    elif cond is not None:
+        c = comparison(cond)
+    if any(z["k"] in JUMPS and z is not exit_break for z in ir.walk(body)):
         raise Undecidable("%s: the enqueuing loop contains a jump statement; the number of jobs is not derived" % loc)
-    c = match.binop(cond, ("<", ">", "!=")) if cond is not None else None
-    if not c:
+    if not c or c[0] not in ("<", ">", "!=", "<=", ">="):
         raise Undecidable("%s: the condition of the enqueuing loop is not a comparison of the counter with a bound" % loc)
-    for ctr_side, bnd_side, op in ((c[1], c[2], c[0]), (c[2], c[1], {"<": ">", ">": "<", "!=": "!="}[c[0]])):
+    for ctr_side, bnd_side, op in ((c[1], c[2], c[0]), (c[2], c[1], _MIRROR[c[0]])):
+        # do { } while (++i < B): the step is the counter side of the condition and yields the new value
+        in_cond_step = None
+        if is_do:
+            u = match.unop(peel(ctr_side), ("++", "--")) if peel(ctr_side) is not None and peel(ctr_side)["k"] == "UnaryOperator" else None
+            if u and not u[2]:
+                in_cond_step, ctr_side = peel(ctr_side), u[1]
         did = ref_of(ctr_side)
         v = _locals(fn).get(did) if did is not None else None
         if v is None:
@@ -1068,7 +1191,12 @@ def trip_count(fn, g, lp, e):
         sp = steps[0]
         in_inc = inc is not None and any(z is sp for z in ir.walk(inc))
         in_body_top = body is not None and ((body["k"] == "CompoundStmt" and any(k is sp for k in kids(body))) or body is sp)
-        if not (in_inc or in_body_top):
+        if not (in_inc or in_body_top or sp is in_cond_step):
+            continue
+        if in_cond_step is not None and sp is not in_cond_step:
+            continue
+        # the counter is a local of this function that no lambda captures by reference
+        if did in fn._c04_captured:
             continue
         # start value
         start = None
@@ -1080,14 +1208,34 @@ def trip_count(fn, g, lp, e):
         bound = value_key(fn, bnd_side)
         if start is None or bound is None:
             raise Undecidable("%s: start value or bound of the enqueuing loop is not understood" % loc)
+        cnt = None
         if st == 1 and op in ("<", "!="):
             if start[0] is not None:
                 raise Undecidable("%s: the enqueuing loop does not start at a constant" % loc)
-            return (bound[0], bound[1] - start[1])
-        if st == -1 and op in (">", "!="):
+            cnt = (bound[0], bound[1] - start[1])
+        elif st == 1 and op == "<=" and bound[1] >= 0:
+            # i <= B runs for i = c0 .. B  (B is not written as `x - k`: no wrap-around of an unsigned bound)
+            if start[0] is not None:
+                raise Undecidable("%s: the enqueuing loop does not start at a constant" % loc)
+            cnt = (bound[0], bound[1] + 1 - start[1])
+        elif st == -1 and op in (">", "!="):
             if bound[0] is not None:
                 raise Undecidable("%s: the counting-down enqueuing loop does not end at a constant" % loc)
-            return (start[0], start[1] - bound[1])
+            cnt = (start[0], start[1] - bound[1])
+        if cnt is None:
+            continue
+        if is_do:
+            # the body runs before the first test: max(1, count) times (with != : the counter would run past the bound)
+            if cnt[0] is None:
+                if cnt[1] < 1:
+                    raise Undecidable("%s: the do-while loop enqueues a job although the count is %d" % (loc, cnt[1]))
+            elif cnt[0][0] == "field" and cnt[1] >= 0:
+                why = field_at_least_one(fn, cnt[0][1])
+                if why is not None:
+                    raise Undecidable("%s: a do-while loop enqueues at least one job; that %s >= 1 is not established (%s)" % (loc, show_key(cnt), why))
+            else:
+                raise Undecidable("%s: a do-while loop enqueues at least one job; that %s >= 1 is not established" % (loc, show_key(cnt)))
+        return cnt
     raise Undecidable("%s: the enqueuing loop is not a counting loop of a recognised form (counter, bound, single step)" % loc)
 
 
@@ -1287,6 +1435,324 @@ def check_copy_back(ck, tu):
                         raise Undecidable("%s: the input pointer is handed to %s(); whether that copies the bucket back is not known" % (fn.nloc(x), x["callee"]["name"]))
         ck.violation("COPY-BACK", fn.qname, "insertion_sort_cache", "there is a return path that skips copy_back(): a bucket living in the shadow array is never moved back "
                      "to the caller's array", fn.loc)
+
+
+# ---------------------------------------------------------------------------------------------- COPY-BACK where a range is reported finished
+# ctx.donesize(n) reports n strings as finished: they must be in the caller's array.  A range that is handed on (ctx.enqueue, a sorter that
+# reports it itself, a stack of steps) is the receiver's business; a range that is reported here must have passed copy_back() - directly, or
+# inside a callee that copies back on every one of its paths - since the iteration of the enclosing loop began / since the previous report.
+# member functions of the shadow pointer that neither move strings between the two arrays nor expose them
+SHADOW_NOOP = ("size", "empty", "sub", "flip", "fill_lcp", "set_lcp", "get_lcp", "lcp", "check", "operator=")
+# the code tells the two arrays apart / reaches the strings itself: a copy written by hand, or a copy_back() only where flipped() holds, is not recognised
+SHADOW_RAW = ("active", "shadow", "flipped")
+# containers of steps: the range is stored for a later iteration
+STORE_KNOWN = ("emplace_back", "push_back")
+
+
+def is_copy_back(x):
+    return "callee" in x and x["callee"]["name"] == "copy_back" and x.get("member_call") and "StringShadow" in (x["callee"].get("record") or "")
+
+
+def is_donesize(x):
+    return "callee" in x and x["callee"]["name"] == "donesize" and x.get("member_call") and "PS5Context" in (x["callee"].get("record") or "")
+
+
+def shadow_typed(n):
+    """the node / parameter is a shadow pointer itself (or a reference / pointer to one)"""
+    t = (n.get("ty") or "").strip() if n is not None else ""
+    while t.startswith("const "):
+        t = t[6:]
+    return t.startswith(NS + "StringShadow")
+
+
+def holds_shadow(n):
+    """the type mentions a shadow pointer: a step, a container of steps"""
+    return n is not None and "StringShadow" in (n.get("ty") or "")
+
+
+def flipped_polarity(fn, cond, depth=0):
+    """True: cond <=> X.flipped() for a shadow pointer X; False: cond <=> !X.flipped(); None: something else"""
+    e = resolve(fn, cond)
+    if e is None or depth > 6:
+        return None
+    if e["k"] == "UnaryOperator" and e.get("op") == "!":
+        r = flipped_polarity(fn, kids(e)[0], depth + 1)
+        return None if r is None else (not r)
+    if "callee" in e and e.get("member_call") and e["callee"]["name"] == "flipped" and kids(e) and shadow_typed(peel(kids(e)[0])):
+        return True
+    b = match.binop(e, ("==", "!="))
+    if b:
+        for s_, o in ((b[1], b[2]), (b[2], b[1])):
+            cv = const_int(o)
+            r = flipped_polarity(fn, s_, depth + 1)
+            if cv is not None and r is not None:
+                return (r == bool(cv)) if b[0] == "==" else (r != bool(cv))
+    return None
+
+
+def finishes(tu, fn, memo):
+    """'must': every path through fn passes copy_back() of a shadow pointer (directly or in a callee that does on every path);
+    'may': some path does / a call is not followed; 'no': nothing reachable from fn copies back.  Jobs handed to the pool run later: not followed."""
+    if fn.did in memo:
+        return memo[fn.did]
+    memo[fn.did] = "may"             # a recursion is not followed
+    r = "no"
+    if fn.body is not None:
+        g = cfgm.CFG(fn) if fn.cfg else None
+        pos, some = [], False
+        for x in fn.nodes():
+            if "callee" not in x or ctx_enqueue(x) or pool_enqueue(x):
+                continue
+            w = "no"
+            if is_copy_back(x):
+                w = "must"
+            else:
+                cal = tu.by_did.get(x["callee"].get("did"))
+                if cal is not None and cal is not fn and cal.body is not None:
+                    w = finishes(tu, cal, memo)
+                elif cal is fn:
+                    w = "may"
+            if w != "no":
+                some = True
+            if w == "must" and g is not None and g.pos(x) is not None:
+                pos.append(g.pos(x))
+        if pos and g.path_avoiding((g.entry, -1), pos) is None:
+            r = "must"
+        elif some:
+            r = "may"
+    memo[fn.did] = r
+    return r
+
+
+def _pgraph(g):
+    """successor / predecessor relation on positions; (b, -1) stands for the entry of block b"""
+    succ, pred = {}, {}
+    for b in g.blocks:
+        n = len(g.elements(b))
+        for i in range(-1, n):
+            succ[(b, i)] = [(b, i + 1)] if i + 1 < n else [(s, -1) for s in g.succ[b]]
+    for p, ss in succ.items():
+        for s in ss:
+            pred.setdefault(s, []).append(p)
+    return succ, pred
+
+
+def loop_heads_around(g, blk):
+    """header blocks of the natural loops (back edge u -> v, v dominates u) that contain block blk"""
+    dom = g.dom()
+    out = set()
+    for u in g.blocks:
+        for v in g.succ[u]:
+            if u in dom and v in dom[u]:
+                body, work = {v}, [u]
+                while work:
+                    b = work.pop()
+                    if b in body:
+                        continue
+                    body.add(b)
+                    work.extend(g.pred[b])
+                if blk in body:
+                    out.add(v)
+    return out
+
+
+def check_finished_ranges(ck, tu, fn, memo):
+    dones = [x for x in fn.nodes() if is_donesize(x)]
+    if not dones:
+        return 0
+    if fn.kind == "lambda" or not fn.cfg:
+        raise Undecidable("%s: a range is reported finished (donesize) in a function whose paths are not followed" % fn.nloc(dones[0]))
+    g = cfgm.CFG(fn)
+    tag = "%s::%s [%s]" % ((fn.record or "").split("::")[-1], fn.name, inst(fn) if fn.rtargs else "-")
+    gens, maybes = {}, {}
+    # a branch taken only where X.flipped() is false: the range X is in the caller's array already
+    home_edges, tested = set(), set()
+    for bid, b in g.blocks.items():
+        ss = b.get("succ", [])
+        if len(ss) == 2 and ss[0] is not None and ss[1] is not None and ss[0] != ss[1] and b.get("cond") is not None and b.get("termk") != "SwitchStmt":
+            cn = fn.byid(b["cond"])
+            pol = flipped_polarity(fn, cn) if cn is not None else None
+            if pol is not None:
+                home_edges.add((bid, ss[1] if pol else ss[0]))
+                tested.update(z["id"] for z in ir.walk(cn))
+    for x in fn.nodes():
+        if "callee" not in x or is_donesize(x) or ctx_enqueue(x) or pool_enqueue(x) or x["id"] in tested:
+            continue
+        p = g.pos(x)
+        if is_copy_back(x):
+            w = "must"
+        else:
+            cal = tu.by_did.get(x["callee"].get("did"))
+            nm = x["callee"]["name"]
+            on_shadow = x.get("member_call") and kids(x) and shadow_typed(peel(kids(x)[0]))
+            gets_shadow = any(shadow_typed(peel(a)) for a in kids(x) if a is not None)
+            if cal is fn:
+                w = "may"
+            elif on_shadow and nm in SHADOW_RAW:
+                w = "may"
+            elif x["k"] in ("CXXConstructExpr", "CXXTemporaryObjectExpr") and shadow_typed(x) and (cal is None or cal.body is None):
+                w = "no"            # copying the pointer object moves no strings
+            elif cal is not None and cal.body is not None:
+                w = finishes(tu, cal, memo)
+            elif on_shadow and nm in SHADOW_NOOP:
+                w = "no"
+            elif gets_shadow and x.get("member_call") and nm in STORE_KNOWN:
+                # the element is built by a constructor of a step class that takes the range: followed
+                ws = [finishes(tu, c, memo) for c in tu.functions if c.kind == "ctor" and c.body is not None and c.record not in (BIG, SMALL)
+                      and "StringShadow" not in (c.record or "") and any(shadow_typed(p) for p in c.params)]
+                w = "no" if all(v == "no" for v in ws) else "may"
+            elif gets_shadow:
+                w = "may"           # an unknown function receives the range
+            elif any(holds_shadow(peel(a)) for a in kids(x) if a is not None) and not (x["callee"].get("qname") or "").startswith("std::"):
+                w = "may"           # an unknown function outside the standard library receives a step
+            else:
+                w = "no"
+        if w == "no":
+            continue
+        if p is None:
+            maybes[("nopos", x["id"])] = x
+        elif w == "must":
+            gens[p] = x
+        else:
+            maybes[p] = x
+    succ, pred = _pgraph(g)
+    dpos = {}
+    for d in dones:
+        if g.pos(d) is None:
+            raise Undecidable("%s: donesize() has no position in the CFG" % fn.nloc(d))
+        dpos[g.pos(d)] = d
+    for pd, d in sorted(dpos.items(), key=lambda kv: kv[1]["id"]):
+        # backwards from the report, not through a copy_back; stops where the iteration began / at the previous report
+        starts = set((v, -1) for v in loop_heads_around(g, pd[0])) | set(q for q in dpos if q != pd) | {(g.entry, -1)}
+        back, work, hit = set(), [pd], []
+        while work:
+            q = work.pop()
+            for r in pred.get(q, []):
+                if r in back or r in gens or (q[1] == -1 and (r[0], q[0]) in home_edges):
+                    continue
+                back.add(r)
+                if r in starts:
+                    hit.append(r)
+                else:
+                    work.append(r)
+        if pd in back and pd not in hit:
+            hit.append(pd)       # the report reaches itself around a loop that is not a natural one
+        what = "ctx.donesize(%s)" % (dtable.describe(kids(d)[1]) if len(kids(d)) > 1 else "")
+        if not hit:
+            ck.ok("COPY-BACK", "%s %s line %s" % (tag, what, d.get("l")), "the range reported finished passed copy_back() on every path since the "
+                  "iteration began / since the previous report")
+            continue
+        # only what lies on a path from such a start to the report matters
+        fwd, work = set(hit), list(hit)
+        while work:
+            q = work.pop()
+            for r in succ.get(q, []):
+                if r in back and r not in fwd and not (r[1] == -1 and (q[0], r[0]) in home_edges):
+                    fwd.add(r)
+                    work.append(r)
+        # a witness must be a path that can be taken: it may not leave two tests of one condition by different outcomes.  Conditions over
+        # never-written locals are surely the same each time ("S"); other conditions that read the same ("M") may or may not be.
+        labels = {}
+        for b in set(q[0] for q in fwd):
+            blk = g.blocks[b]
+            ss = blk.get("succ", [])
+            if len(ss) != 2 or ss[0] is None or ss[1] is None or ss[0] == ss[1] or blk.get("cond") is None or blk.get("termk") == "SwitchStmt":
+                continue
+            e, pol = peel(fn.byid(blk["cond"])), True
+            while e is not None and e["k"] == "UnaryOperator" and e.get("op") == "!":
+                e, pol = peel(kids(e)[0]), not pol
+            if e is None:
+                continue
+            dids = set()
+            sig = _cond_sig(fn, e, dids)
+            if sig is not None and dids:
+                tier, key = "S", repr(sig)
+            else:
+                # a local that is written on the way has a new value at the second test
+                free = False
+                for z in ir.walk(e):
+                    if z["k"] == "DeclRefExpr" and z["ref"].get("kind") in ("local", "param") and not _never_written(fn, z["ref"]["id"]):
+                        if any(_is_write(fn, u) and g.pos_deep(u) in fwd for u in uses_of(fn, z["ref"]["id"])):
+                            free = True
+                if free:
+                    continue
+                tier, key = "M", dtable.describe(e)
+            labels[(b, ss[0])] = (tier, key, pol)
+            labels[(b, ss[1])] = (tier, key, not pol)
+
+        def witness(tiers):
+            for s0 in hit:
+                seen, work = {(s0, ())}, [(s0, ())]
+                while work:
+                    q, env = work.pop()
+                    for r in succ.get(q, []):
+                        if (r != pd and r not in fwd) or (r[1] == -1 and (q[0], r[0]) in home_edges):
+                            continue
+                        env2 = env
+                        lab = labels.get((q[0], r[0])) if r[1] == -1 else None
+                        if lab is not None and lab[0] in tiers:
+                            cur = dict(env)
+                            if cur.get(lab[1], lab[2]) != lab[2]:
+                                continue
+                            cur[lab[1]] = lab[2]
+                            env2 = tuple(sorted(cur.items()))
+                        if r == pd:
+                            return s0
+                        if (r, env2) not in seen:
+                            if len(seen) > 200000:
+                                raise Undecidable("%s: too many combinations of repeated conditions on the way to %s" % (fn.nloc(d), what))
+                            seen.add((r, env2))
+                            work.append((r, env2))
+            return None
+        start = witness(("S", "M"))
+        if start is None:
+            if witness(("S",)) is None:
+                ck.ok("COPY-BACK", "%s %s line %s" % (tag, what, d.get("l")), "the range reported finished passed copy_back() on every path that can be "
+                      "taken since the iteration began / since the previous report (a condition over unchanged locals is tested twice)")
+                continue
+            raise Undecidable("%s: every path that reaches %s without copy_back() takes different outcomes at two tests that read the same; whether "
+                              "the tested value changes in between is not derived" % (fn.nloc(d), what))
+        unknown = [x for p, x in maybes.items() if p in fwd or p[0] == "nopos"]
+        if unknown:
+            x = unknown[0]
+            raise Undecidable("%s: %s is reached without a copy_back() that is recognised, but %s() on the way may copy the range back or exposes the "
+                              "string arrays; not followed" % (fn.nloc(x), what, x["callee"]["name"]))
+        # a flag / counter that is set where the copy_back() happens and read on the way to the report: the path without copy_back() may not exist
+        back_all, work = set(), [pd]
+        while work:
+            q = work.pop()
+            for r in pred.get(q, []):
+                if r not in back_all:
+                    back_all.add(r)
+                    if r not in starts:
+                        work.append(r)
+        readers = [fn.byid(g.blocks[b]["cond"]) for b in set(q[0] for q in fwd) if g.blocks[b].get("cond") is not None] + list(kids(d)[1:])
+        for cn in readers:
+            for z in ir.walk(cn) if cn is not None else []:
+                if z["k"] != "DeclRefExpr" or z["ref"].get("kind") != "local" or holds_shadow(z) or _never_written(fn, z["ref"]["id"]):
+                    continue
+                for u in uses_of(fn, z["ref"]["id"]):
+                    if _is_write(fn, u):
+                        pw = g.pos_deep(u)
+                        if pw is None or (pw in back_all and pw not in fwd):
+                            raise Undecidable("%s: `%s` is set on a path that passes copy_back() and read on the way to %s; whether the path without "
+                                              "copy_back() can be taken is not derived" % (fn.nloc(u), z["ref"].get("name"), what))
+        seen, work = {(g.entry, -1)}, [(g.entry, -1)]
+        while work and pd not in seen:
+            q = work.pop()
+            for r in succ.get(q, []):
+                if r not in seen and (r == pd or r not in gens) and not (r[1] == -1 and (q[0], r[0]) in home_edges):
+                    seen.add(r)
+                    work.append(r)
+        if pd not in seen:
+            raise Undecidable("%s: %s is preceded by a copy_back() on every path from the entry, but not within the same iteration / after the previous "
+                              "report; whether that copy covers this range is not derived" % (fn.nloc(d), what))
+        frm = "the entry of %s" % fn.name if start == (g.entry, -1) else \
+            ("the previous donesize() (line %s)" % dpos[start].get("l") if start in dpos else "the start of an iteration of the enclosing loop")
+        ck.violation("COPY-BACK", fn.qname, "%s:donesize:%s" % (fn.name, dtable.describe(kids(d)[1]).replace(" ", "") if len(kids(d)) > 1 else ""),
+                     "%s reports a range as finished, but a path from %s reaches it without copy_back(): when the job's StringShadowPtr is flipped "
+                     "the range stays in the shadow array and never reaches the caller's array" % (what, frm), fn.nloc(d))
+    return len(dpos)
 
 
 # ---------------------------------------------------------------------------------------------- RESULT-ARRAY
@@ -1723,6 +2189,12 @@ def run(ck):
     ck.guarded(lambda: check_rmw(ck, tu))
     ck.guarded(lambda: check_completion(ck, tu))
     ck.guarded(lambda: check_copy_back(ck, tu))
+    fin_memo, fin_sites = {}, []
+    for fn in tu.functions:
+        if fn.body is not None and (fn.qname or "").startswith(NS):
+            ck.guarded(lambda fn=fn: fin_sites.append(check_finished_ranges(ck, tu, fn, fin_memo)))
+    ck.guarded(lambda: ck.require(sum(1 for n in fin_sites if n) >= 4 or ck.deferred,
+                                  "places where a range is reported finished (ctx.donesize) not found in the sorters"))
     ck.guarded(lambda: check_packed_lcp(ck, tu))
     ck.guarded(lambda: check_result_array(ck, tu))
     ck.guarded(lambda: check_stale_data_pointer(ck, tu))
